@@ -386,26 +386,29 @@ def whileG (P : Prog) (c b : Expr) (ρ : Env) (n : Nat) (v : Val) (w : World) : 
   | .bool false => .ok .unit w
   | _ => .fail (.stuck "while on a non-boolean") w
 
+theorem eval_while_succ (P : Prog) (c b : Expr) (ρ : Env) (w : World) (n : Nat) :
+    eval (n+1) P ρ w (.while c b) = (eval n P ρ w c).bind (whileG P c b ρ n) := by
+  rw [eval]; unfold whileG; cases eval n P ρ w c with
+  | fail f w' => rfl
+  | ok v w' =>
+    simp only [Res.bind]
+    cases v <;> try rfl
+    rename_i bv; cases bv
+    · rfl
+    · simp only; cases eval n P ρ w' b <;> rfl
+
 theorem ev_while {P c b ρ w r} : Ev P (.while c b) ρ w r ↔ RB (Ev P c ρ w) (whileK P c b ρ) r := by
-  rw [ev_unfold (H := fun n => (eval n P ρ w c).bind (whileG P c b ρ n))]
-  · refine conv_bind' (F := fun n => eval n P ρ w c) (G := whileG P c b ρ) (mono_eval _ _ _ _) ?_ ?_ r
-    · intro a w'; unfold whileG; split
-      · exact mono_bind (F := fun n => eval n P ρ w' b) (G := fun n _ w'' => eval n P ρ w'' (.while c b))
-          (mono_eval _ _ _ _) (fun _ _ => mono_eval _ _ _ _)
-      · exact mono_const _
-      · exact mono_const _
-    · intro a w' r; unfold whileG whileK; split
-      · exact conv_bind (F := fun n => eval n P ρ w' b) (G := fun n _ w'' => eval n P ρ w'' (.while c b))
-          (mono_eval _ _ _ _) (fun _ _ => mono_eval _ _ _ _) r
-      · exact conv_ok
-      · exact conv_stuck
-  · intro n; rw [eval]; unfold whileG; cases eval n P ρ w c with
-    | fail f w' => rfl
-    | ok v w' =>
-      simp only [Res.bind]
-      cases v <;> try rfl
-      rename_i bv; cases bv
-      · rfl
-      · simp only; cases eval n P ρ w' b <;> rfl
+  rw [ev_unfold (H := fun n => (eval n P ρ w c).bind (whileG P c b ρ n)) (eval_while_succ P c b ρ w)]
+  refine conv_bind' (F := fun n => eval n P ρ w c) (G := whileG P c b ρ) (mono_eval _ _ _ _) ?_ ?_ r
+  · intro a w'; unfold whileG; split
+    · exact mono_bind (F := fun n => eval n P ρ w' b) (G := fun n _ w'' => eval n P ρ w'' (.while c b))
+        (mono_eval _ _ _ _) (fun _ _ => mono_eval _ _ _ _)
+    · exact mono_const _
+    · exact mono_const _
+  · intro a w' r; unfold whileG whileK; split
+    · exact conv_bind (F := fun n => eval n P ρ w' b) (G := fun n _ w'' => eval n P ρ w'' (.while c b))
+        (mono_eval _ _ _ _) (fun _ _ => mono_eval _ _ _ _) r
+    · exact conv_ok
+    · exact conv_stuck
 
 end Goml.Sem
